@@ -172,7 +172,18 @@ Definition send_join_admissible (i : sj_input) : bool :=
   sender_of_server (sj_sender i) (sj_origin i) &&
   verified (sj_verify i) &&
   match sj_membership i with Some cur => negb (bytes_eqb cur s_ban) | None => false end &&
-  authoriser_local f (sj_authvia_domain i) (sj_local_name i).
+  authoriser_local f (sj_authvia_domain i) (sj_local_name i) &&
+  (* pseudo-ID rooms: the mapping is the sender key's, signed by the user's server, and stored *)
+  (negb (bytes_eqb (sj_version i) v_pseudo_ids) ||
+   (sj_mapping_ok i && sj_mapping_key_ok i && sj_mapping_sig_ok i && sj_store_ok i)).
+
+(* What the handshake is for (finding F92, recorded): the local signature on a restricted join
+   attests that the joiner satisfies an allow condition; HandleSendJoin cannot know and signs. *)
+Definition send_join_attestation_justified (i : sj_input) : bool :=
+  match ef_authorised_via (sj_fields i) with
+  | [] => true
+  | _ => sj_joiner_entitled i
+  end.
 
 (* ---------- invite ----------
    HandleInviteInput carries neither the event ID nor the origin of the request, so those two
@@ -207,6 +218,7 @@ Definition invite_v3_admissible (x : iv3_extra) (i : inv_input) : bool :=
 Definition is_known_create (e : pj_auth_event) : bool :=
   bytes_eqb (pa_type e) m_room_create &&
   match pa_state_key e with Some k => bytes_eqb k [] | None => false end &&
+  pa_room_ok e &&
   pa_content_ok e &&
   version_known (match pa_room_version e with [] => v_1 | v => v end).
 
@@ -224,3 +236,8 @@ Definition perform_join_admissible (i : pj_input) (used : bool) : bool :=
                bytes_eqb (pr_room_id r) (pj_room_id i)
    | None => false
    end).
+
+(* What the event member of a send_join response is for (finding F87, recorded): the remote's copy
+   may replace the join PerformJoin built only if it is that very event. *)
+Definition perform_join_returns_own_event (i : pj_input) (used : bool) : bool :=
+  negb used || match pj_remote i with Some r => pr_same_event r | None => false end.
